@@ -84,6 +84,11 @@ def predicate(res, hr):
                         res.violation(f"the count of {w!r} went from {a[0]} to {b[0]} on one confirmation", rep)
                     if c != ctx:
                         res.violation(f"a confirmation in context {ctx} changed a count of context {c}", rep)
+                    surfaces = {e["stem"] for e in hr.base["std"] + hr.base["anc"]}
+                    affixes = [e for e in hr.base["anc"] + hr.base["std"] if isinstance(e["speech"], dict) and "Affix" in e["speech"]]
+                    compounds = {a["stem"] + e["stem"] for a in affixes for e in hr.base["std"]} | {e["stem"] + a["stem"] for a in affixes for e in hr.base["std"]}
+                    if w not in surfaces and w in compounds:
+                        res.violation(f"confirming {texts[int(cid)]!r} learned {w!r}, an affix+word spelling, instead of the candidate's independent word", rep)
                     if w not in texts[int(cid)]:
                         res.violation(f"the confirmed candidate {texts[int(cid)]!r} does not contain the learned word {w!r}", rep)
                 # every other change is the drop of a count not refreshed for three days; and those are all dropped
@@ -216,6 +221,14 @@ def run(tier, seed):
         return res.finish({"obligations": info["obligations"], "discharged": info["discharged"], "checker_cmd": "make", "trusted_base": TRUSTED_COMMON}, [])
     n = 24 if tier == "quick" else 400
     items = [gen_c06_history(rnd) for _ in range(n)]
+    # affixed candidates: what is learned is the candidate's independent word, never the prefix+word / word+suffix spelling
+    affix_base = {"std": [{"reading": "ちゃ", "stem": "荼", "speech": {"Noun": "Common"}}, {"reading": "くるま", "stem": "車", "speech": {"Noun": "Common"}}],
+                  "anc": [{"reading": "お", "stem": "御", "speech": {"Affix": "Prefix"}}, {"reading": "てき", "stem": "的", "speech": {"Affix": "Suffix"}}], "tankan": []}
+    areqs = []
+    for inp in ("おちゃ", "ちゃてき", "おくるまてき"):
+        for i in range(4):
+            areqs += [{"kind": "convert", "input": inp, "context": "Normal"}, {"kind": "confirm", "session": len(areqs) // 2, "cid": str(i)}]
+    items.append((affix_base, areqs))
     # many outstanding sessions: a session issued long ago and never confirmed is still live (the store has no bound)
     many_base = {"std": [{"reading": "き", "stem": "木", "speech": {"Noun": "Common"}}, {"reading": "き", "stem": "気", "speech": {"Noun": "Common"}}], "anc": [], "tankan": []}
     k_out = 1100 if tier == "quick" else 5000
